@@ -28,6 +28,9 @@
 #include "datetime.h"
 
 #include "snoopy.h"
+#ifdef SNOOPY_CONF_THREAD_SAFETY_ENABLED
+#include "tsrm.h"
+#endif
 
 #include <errno.h>
 #include <stdio.h>
@@ -54,17 +57,12 @@ int snoopy_datasource_datetime (char * const resultBuf, size_t resultBufSize, ch
     struct tm  curLocalTimeBuf;
     const struct tm *curLocalTime;
     char const *formatToUse;
+    size_t     formattedSize = 0;
     char       timeBuffer[SNOOPY_DATASOURCE_DATETIME_sizeMaxWithNull];
 
     // Get current time
     if ((time_t) -1 == time(&curTime)) {
         return snprintf(resultBuf, resultBufSize, "(error @ time(): %d)", errno);
-    }
-
-    // Convert to local time
-    curLocalTime = localtime_r(&curTime, &curLocalTimeBuf);
-    if (NULL == curLocalTime) {
-        return snprintf(resultBuf, resultBufSize, "(error @ localtime_r())");
     }
 
     // Determine the format to use
@@ -74,8 +72,21 @@ int snoopy_datasource_datetime (char * const resultBuf, size_t resultBufSize, ch
         formatToUse = SNOOPY_DATASOURCE_DATETIME_defaultFormat;
     }
 
-    // Format it
-    if (0 == strftime(timeBuffer, SNOOPY_DATASOURCE_DATETIME_sizeMaxWithNull, formatToUse, curLocalTime)) {
+    // Convert to local time and format it
+#ifdef SNOOPY_CONF_THREAD_SAFETY_ENABLED
+    snoopy_tsrm_forkUnsafeLibcCall_enter();
+#endif
+    curLocalTime = localtime_r(&curTime, &curLocalTimeBuf);
+    if (NULL != curLocalTime) {
+        formattedSize = strftime(timeBuffer, SNOOPY_DATASOURCE_DATETIME_sizeMaxWithNull, formatToUse, curLocalTime);
+    }
+#ifdef SNOOPY_CONF_THREAD_SAFETY_ENABLED
+    snoopy_tsrm_forkUnsafeLibcCall_leave();
+#endif
+    if (NULL == curLocalTime) {
+        return snprintf(resultBuf, resultBufSize, "(error @ localtime_r())");
+    }
+    if (0 == formattedSize) {
         return snprintf(resultBuf, resultBufSize, "(error @ strftime())");
     }
 
